@@ -217,6 +217,7 @@ func oracleC02(f *sessionFam, w *World, res *Result) []Violation {
 			}
 		}
 		var sends []Ev
+		dupSent, dupGot := 0, 0
 		cand := map[string]bool{}
 		for _, e := range w.Evs {
 			if e.Sess != a {
@@ -224,6 +225,12 @@ func oracleC02(f *sessionFam, w *World, res *Result) []Violation {
 			}
 			switch e.Kind {
 			case "c-send":
+				if e.S == "t:dup" {
+					// the payload of an injected overlapping data request (fault 'dup-post'): it travels on its own,
+					// non-conformant request, so its order relative to the regular requests is not defined
+					dupSent++
+					continue
+				}
 				sends = append(sends, e)
 			case "c-cand-send":
 				cand[e.S] = true
@@ -236,6 +243,13 @@ func oracleC02(f *sessionFam, w *World, res *Result) []Violation {
 		i := 0
 		delivered := map[int]bool{}
 		for _, e := range w.evs(a, "message") {
+			if e.S == "t:dup" && dupSent > 0 {
+				dupGot++
+				if dupGot > dupSent {
+					l.add("exactly-once", sctx, fmt.Sprintf("%s [%s]: inbound message %q delivered %d times, submitted %d times", a, ctx, e.S, dupGot, dupSent))
+				}
+				continue
+			}
 			if cand[e.S] {
 				l.add("candidate-messages-not-delivered", "", fmt.Sprintf("%s [%s]: message %q sent on an upgrade candidate that never completed was delivered to the application", a, ctx, clip(e.S, 50)))
 				continue
